@@ -351,13 +351,13 @@ batches) applied to a complete valid response returns exactly the records of the
 fetch offset — keys, values, headers, timestamps (the append time for LogAppendTime batches), absolute offsets, order —
 EXACTLY: since fixes 4db07b4 / a925b8a / 795ac84 / 314fa1c null and empty are told apart on this path too, both paths
 apply the timestamp type and both pass over control batches (before, the statement held only up to null ≈ empty and
-for sets without control batches); and that is, unconditionally, what the Client.Fetch model returns from the same bytes.  (Wrappers carry a null key, as brokers write them: the Conn code skips 4 bytes there.) -/
+for sets without control batches; and since fix C05-D31 a wrapper message may carry a key — the hypothesis `hkey`
+"wrappers have a null key" is gone); and that is, unconditionally, what the Client.Fetch model returns from the same bytes. -/
 theorem decoders_agree_content (c : Crcs) (h1 : ∀ b, c.ieee b < M32) (h2 : ∀ b, c.castagnoli b < M32)
-    (dec : Int → Bytes → Option Bytes) (es : List Entry) (gs : List (Bool × List Rec)) (h : AllGood c dec es gs)
-    (hkey : ∀ m, Entry.msg m ∈ es → codecOf m.attributes ≠ 0 → m.key = none) (o : Int) :
+    (dec : Int → Bytes → Option Bytes) (es : List Entry) (gs : List (Bool × List Rec)) (h : AllGood c dec es gs) (o : Int) :
     connFetch dec o (encSet c es) = some ((surfaced gs).filter (fun r => o ≤ r.offset)) ∧
     connFetch dec o (encSet c es) = some ((clientFetch c dec (encSet c es)).filter (fun r => o ≤ r.offset)) := by
-  have hconn := connReadSet_encSet c h1 h2 dec es gs h hkey (encSet c es).length (encSet_length_ge c es)
+  have hconn := connReadSet_encSet c h1 h2 dec es gs h (encSet c es).length (encSet_length_ge c es)
   have hfirst : connFetch dec o (encSet c es) = some ((surfaced gs).filter (fun r => o ≤ r.offset)) := by
     simp only [connFetch, hconn, Option.map_some]
   exact ⟨hfirst, by rw [hfirst, (decoders_agree_client c h1 h2 dec es gs h).2]⟩
